@@ -336,6 +336,20 @@ where
         pts.push(acc.clone());
         pts.push(c.neg(&acc));
     }
+    // points whose leading payload bits are all zero: the first byte of the encoding is then exactly the flag bits
+    // (0x80 / 0xa0 compressed, 0x00 uncompressed), the boundary of every test written on that byte
+    let mut found = 0;
+    for _ in 0..2000 {
+        if found >= ctx.tier.pick(2, 6) {
+            break;
+        }
+        acc = c.add(&acc, &g);
+        if zcash::encode(&acc, true)[0] & 0x1f == 0 {
+            found += 1;
+            pts.push(acc.clone());
+            pts.push(c.neg(&acc));
+        }
+    }
     let lams = [C::K::one(), C::K::from_u64(2), C::K::from_u64(0xabcdef)];
     let mut values = vec![];
     for (i, p) in pts.iter().enumerate() {
